@@ -15,7 +15,7 @@ pub struct Mk(pub u8);
 impl kani::Arbitrary for Mk {
     fn any() -> Self {
         let b: u8 = kani::any();
-        kani::assume(b < 4);
+        kani::assume(b < 8); // eight marker values: containers of up to 8 pairwise different elements
         Mk(b)
     }
 }
